@@ -110,4 +110,19 @@ CHECKS['C16'] = {
             'during the alive phase.',
     'note': 'For terminate endings any prefix of the assignments is accepted as final state (the exact cut is not pinned).',
 }
+CHECKS['C20'] = {
+    'engine': 'WIRE', 'level': 'fault_enumeration', 'design_ref': 'DESIGN.md 3.3, 4 (C20)',
+    'technique': 'fault enumeration over the server-to-client handshake (every byte offset of the control-address message, sampled offsets of the runtime-info message, FIN/RST, refusal, silence) with a scripted peer, plus child self-kill at enumerated pre-identity lines; hang-guard oracle + process census',
+    'text': 'A scripted peer plays the server side of the RemoteWorker handshake and fails it at a generated point; process/remote children kill themselves at the '
+            'n-th traced line before reporting their identity; unknown context ids and unreachable ports are tried. The constructor must return a worker with a '
+            'foreign pid that answers wait(), or raise, within 15 s, and no process tagged with the case may survive a failed construction.',
+    'note': '15 s is the hang bound; the server being killed at each step is represented by the peer dropping both connections.',
+}
+CHECKS['C11'] = {
+    'engine': 'WIRE', 'level': 'fault_enumeration', 'design_ref': 'DESIGN.md 3.3, 4 (C11)',
+    'technique': 'fault enumeration: recorded real client byte streams replayed by raw sockets cut at generated offsets (FIN/RST/garbage) and failing control-channel steps, sequences of 1-4 faulty clients; liveness + fresh round-trip + concurrent healthy worker oracle',
+    'text': 'The data-connection streams of five request kinds are recorded from the real client code (socket tee) and replayed by faulty clients against a real '
+            'server; after each sequence the server must be alive, serve a fresh RemoteWorker correctly and must not have disturbed a concurrently running healthy worker.',
+    'note': 'Clients that stay connected but silent forever are not modelled; quick tier samples offsets (message boundaries +-1, first 14 bytes, random), thorough enumerates every offset up to 1500.',
+}
 NOT_APPLICABLE = {}
